@@ -681,6 +681,21 @@ class OpaqueLibModel(Model):
             d = "np." + d[len("numpy."):]
         args, kwargs = eng.eval_args(st, node)
         tf = self.tf()
+        if d in ("np.savez", "np.savez_compressed"):
+            # A-NPZ / A-FS: the archive exists completely when the call returns
+            pth = args[0].t
+            if z3.is_app(pth) and pth.decl().name() == "STR":
+                pth = pth.arg(0)
+            for m in self.ext.models:
+                if type(m).__name__ == "DiskModel":
+                    m._facts(st)
+                    m.fs_access(st, pth, node.lineno, "savez")
+            st.ghost["DSTATE"] = z3.Store(st.ghost["DSTATE"], pth,
+                                          z3.IntVal(2))
+            st.ghost["DISK"] = z3.Store(st.ghost["DISK"], pth,
+                                        st.fresh("npz_content", U))
+            st.ghost["FXN"] = VInt(st.ghost["FXN"].t + 1)
+            return VNone()
         t = self.LIBCALL(eng.strconst(d), tf.pack(st, args, kwargs))
         if d.split(".")[-1][:1].isupper():
             st.assume(t != NONE_U)      # a constructor returns an object
